@@ -82,6 +82,7 @@ def run(runobj, spec, timeout=10.0, only=None, verbose=False):
            "failed": [], "by_backend": {}, "solver_s": 0.0, "covers_sat": 0, "dead_paths": 0,
            "trusted_base": set(), "samples": [], "assumed_contracts": set(), "trivial": 0}
     eng.defer = True
+    eng.cover_timeout = 1.0 if runobj.tier == "quick" else 5.0
     reps = [(c, eng.verify(c, timeout=timeout)) for c in cs]
     eng.discharge_many([r for _, r in reps], timeout, jobs=int(os.environ.get("PYVC_JOBS", "15")))
     try:
@@ -135,6 +136,28 @@ def run(runobj, spec, timeout=10.0, only=None, verbose=False):
             res["functions"].append(frec)
     finally:
         pass
+    # inductive lemmas used as axioms by these contracts: their induction steps are obligations of this run
+    from checker import lemmas as L
+    need = []
+    for c, rep in reps:
+        for lem in getattr(c, "lemmas", []) or []:
+            if lem not in need:
+                need.append(lem)
+                if lem.startswith("RB") and "RB" not in need:
+                    need.append("RB")
+        if "is_json" in (c.requires or "") and "JSON-ELEM" not in need:
+            need.append("JSON-ELEM")
+    for r in L.run(need, timeout=max(timeout, 20.0)):
+        res["obligations"] += 1
+        nm = f"lemma/{r['lemma']}/{r['step']}"
+        if r["status"] == "unsat":
+            res["discharged"] += 1
+            res["by_backend"][r["solver"]] = res["by_backend"].get(r["solver"], 0) + 1
+        else:
+            res["undecided"].append({"obligation": nm, "status": r["status"], "what": "induction step of a lemma used as an axiom", "attempts": r["attempts"]})
+    if need:
+        res["trusted_base"].add("induction principle over list/object indices and over JSON value structure (the lemma steps in spec/lemmas are discharged; their composition is the meta-argument)")
+        res["lemmas"] = need
     res["trusted_base"] = sorted(res["trusted_base"])
     res["assumed_contracts"] = sorted(res["assumed_contracts"])
     return res
